@@ -27,11 +27,14 @@ impl DuplicateEventId {
             .unwrap_or(0);
 
         util::find_duplicates(
-            events.filter(|ev| ev.id().value().parse::<u32>().is_ok()),
+            events
+                .clone()
+                .filter(|ev| ev.id().value().parse::<u32>().is_ok()),
             |ev| ev.id().value(),
             |duplicate, first| {
-                max_id += 1;
-                let free_id = max_id;
+                let free_id = util::next_free_id(&mut max_id, |id| {
+                    events.clone().any(|ev| ev.id().value().parse() == Ok(id))
+                });
                 validate.add_error(Self {
                     schema_name: validate.schema_name().to_owned(),
                     duplicate: duplicate.id().clone(),
